@@ -282,7 +282,11 @@ macro_rules! c14_for {
                         "OBS c14.count_reader: bits_read grows by exactly the number of bits consumed from the stream",
                     );
                 }
+                if rr.is_err() && inner.pos == start {
+                    kani::assert(counter == c0, "OBS c14.count_reader.err: a failed operation that consumed nothing from the stream is not counted");
+                }
                 kani::cover!(rr.is_ok() && inner.pos > start, "c14.count_reader reachable (bits consumed)");
+                kani::cover!((op != 0 && op != 15) || (rr.is_err() && inner.pos == start), "c14.count_reader reachable (failed fixed-width read / skip, nothing consumed)");
             }
 
             /// DbgBitWriter / DbgBitReader are transparent
